@@ -19,6 +19,7 @@ LEVEL_TEXT = (
     'pipes: a pass-through recorder sees every exception raised while an event is rendered or written; every JSON line parses strictly, has '
     'no duplicate key in any object, carries the documented envelope and the marker only inside string values (never in a key); every text '
     'line is free of control characters, starts with "neighbor <configured address>" and the marker shows on no more lines than events carry it.'
+    ' Structured UPDATEs from the C02 generator, UPDATEs with several tolerated malformed attributes, tunnel encapsulation, BGP-LS floats; the slow helper may die mid-record and be respawned; a Python object repr in a record is a violation.'
 )
 LEVEL_NOTE = 'trusts: the envelope description in this file (taken from the documentation), strict json.loads as the definition of well-formed JSON'
 DESIGN_REF = 'DESIGN.md section 5, C13'
